@@ -22,7 +22,13 @@ static void vs_move(uint8_t *d, const uint8_t *s, uint64_t n) {
 uint8_t *_ZNSt7__cxx1112basic_stringIcSt11char_traitsIcESaIcEE9_M_createERmm(struct vstr *s, uint64_t *cap, uint64_t old) {
   if (*cap > VSTR_MAX) _ZSt20__throw_length_errorPKc((uint8_t *)"basic_string::_M_create");
   if (*cap > old && *cap < 2 * old) { *cap = 2 * old; if (*cap > VSTR_MAX) *cap = VSTR_MAX; }
-#ifdef VERIF_STR_HEAP_MAX
+#ifdef VERIF_STR_NO_HEAP
+  /* every std::string of the query fits the 15-byte SSO buffer: a request for a heap buffer is reported as a bound
+   * violation and the path ends here, so that the (infeasible) reallocation branch of every push_back/append does not
+   * turn the data pointer into a choice between the local buffer and a heap object */
+  VERIF_CHECK(0, "bound: std::string grows beyond the 15-byte SSO buffer (VERIF_STR_NO_HEAP)"); VERIF_ASSUME(0);
+  return s->u.buf;
+#elif defined(VERIF_STR_HEAP_MAX)
   /* constant-size heap buffers: a malloc whose size is symbolic (a length that depends on input) makes every later
    * access to the object a symbolic-size array operation; requests above the constant are reported, never truncated */
   if (*cap > VERIF_STR_HEAP_MAX) { VERIF_CHECK(0, "bound: std::string heap buffer larger than VERIF_STR_HEAP_MAX"); VERIF_ASSUME(0); }
